@@ -20,7 +20,7 @@ use std::sync::Arc;
 use std::task::Poll;
 
 const DOCS: [(u64, u64); 3] = [(10, 1), (20, 2), (30, 3)];
-const PROBES: [u64; 8] = [10, 20, 30, 40, 70, 71, 33, 99];
+fn probes() -> Vec<u64> { let mut v = vec![10, 20, 30, 40, 70, 71, 33, 99]; v.extend(100..120); v }
 
 fn dirty(w: &World) {
     // unflushed work so that flush/close have something to persist and intents to retire
@@ -94,10 +94,22 @@ fn prepared() -> World {
     w
 }
 
+/// many tiny index buckets, then most documents removed and flushed: compaction has buckets to merge and persists
+fn prepared_compact() -> World {
+    let docs: Vec<(u64, u64)> = (0..16).map(|i| (100 + i, i)).collect();
+    let w = World::new_b(true, true, &docs, 96);
+    for id in 3..=14u64 { let f = w.start(&Op::Remove { id }); let r = drive(f); assert!(r.is_ok(), "setup remove failed: {r:?}"); }
+    let r = drive(w.start(&Op::Flush)); assert!(r.is_ok(), "setup flush failed: {r:?}");
+    std::thread::sleep(std::time::Duration::from_millis(2));
+    w
+}
+
+fn prepared_for(op: &Op) -> World { if matches!(op, Op::CompactBtree | Op::CompactBm25) { prepared_compact() } else { prepared() } }
+
 fn part_a(out: &mut Out, max_k: usize) {
     for op in cancel_ops() {
         // reference run: the same call to completion, every backend call a suspension point
-        let w = prepared();
+        let w = prepared_for(&op);
         let mark = w.store.log_len();
         let mut f = w.start(&op);
         w.store.set_mode(Mode::Yield);
@@ -119,7 +131,7 @@ fn part_a(out: &mut Out, max_k: usize) {
             let head = max_k / 2; let mut v: Vec<usize> = (0..head).collect();
             let rest = polls - head; for i in 0..(max_k - head) { v.push(head + i * rest / (max_k - head)); } v.dedup(); v };
         for k in ks {
-            let w = prepared();
+            let w = prepared_for(&op);
             let (pre_ids, pre_docs) = dump(&w.coll);
             let next_id = w.coll.max_document_id() + 1;
             let mark = w.store.log_len();
@@ -163,7 +175,7 @@ fn part_a(out: &mut Out, max_k: usize) {
                 Err(e) => out.fail("reopen-fails", format!("{} dropped after {k} polls (state {st}): reopen failed: {e}", op.name()), input.clone()),
                 Ok(c2) => {
                     if Arc::ptr_eq(&c2, &w.coll) { out.fail("reopen-returns-retired-handle", format!("{} dropped after {k} polls: open_collection returned the retired handle (state {st})", op.name()), input.clone()); continue; }
-                    for b in consistency_failures(&c2, &PROBES, true) { out.fail("reopen-inconsistent", format!("{} dropped after {k} polls: after reopen {b}", op.name()), input.clone()); }
+                    for b in consistency_failures(&c2, &probes(), true) { out.fail("reopen-inconsistent", format!("{} dropped after {k} polls: after reopen {b}", op.name()), input.clone()); }
                     let (_, docs) = dump(&c2);
                     if !allowed_dumps(&pre_docs, &op, next_id).contains(&docs) {
                         out.fail("reopen-not-all-or-nothing", format!("{} dropped after {k} polls: documents after reopen {:?} (before the call {:?})", op.name(), docs, pre_docs), input.clone());
@@ -350,7 +362,7 @@ fn run_scenario(out: &mut Out, sc: &Scenario, odo: &mut Odometer, rng: Option<&m
             match run.w.reopen() {
                 Ok(c2) => {
                     if Arc::ptr_eq(&c2, &run.w.coll) { out.fail("reopen-returns-retired-handle", format!("after {}: open_collection returned the retired handle", sc.trans.name()), input.clone()); }
-                    else { for b in consistency_failures(&c2, &PROBES, true) { out.fail("reopen-inconsistent", format!("after {}: {b}", sc.trans.name()), input.clone()); } }
+                    else { for b in consistency_failures(&c2, &probes(), true) { out.fail("reopen-inconsistent", format!("after {}: {b}", sc.trans.name()), input.clone()); } }
                 }
                 Err(e) => out.fail("reopen-fails", format!("after {}: {e}", sc.trans.name()), input.clone()),
             }
